@@ -17,7 +17,9 @@ RULE = ("Two inverter objects A and B (same or different family / platform / tra
         "ET eco-v1, DT, ES v1, ES v2) talk to two simulated inverters with different register contents (including "
         "undecodable eco groups).  Each has a seeded call sequence drawn from {read_runtime_data, read_setting of "
         "every setting kind incl. eco groups and peak shaving, write_setting of scalar / byte / eco-group values, "
-        "set_operation_mode of every mode, get_operation_mode, read_sensor}.  The case is executed three times, each "
+        "set_operation_mode of every mode, get_operation_mode, read_sensor}, interspersed with peer-side events (eco group 1 "
+        "becomes undecodable / 'not set', the next request is answered by exception 6); objects may use custom comm "
+        "addresses (the peer then answers only that address) and each peer refuses a random subset of settings.  The case is executed three times, each "
         "in its own pristine forked process: A alone, B alone, and A || B as two tasks on one simulated loop with "
         "plan-chosen start offsets and per-answer latencies (interleaving granularity = every request).  Oracles: per "
         "object the frames seen by its peer (Modbus/TCP transaction id masked) and the results (snapshotted as text at "
@@ -33,7 +35,9 @@ LEVEL_NOTE = "Trusted: fork isolation; textual snapshots."
 TECHNIQUE = "deterministic simulation: solo vs interleaved executions in pristine processes, per-object trace equality"
 
 N = {"quick": 1500, "thorough": 150_000}
-KINDS = ["ET205", "ET745", "ETv1", "DT", "ESv1", "ESv2", "ET205tcp"]
+KINDS = ["ET205", "ET745", "ETv1", "DT", "DT1", "DTtcp", "ESv1", "ESv2", "ET205tcp"]
+REFUSABLE = {"ET": ["bms2_version", "bms2_bat_soc", "battery_capacity", "dred", "fast_charging"], "DT": ["shadow_scan_pv3", "grid_export_hw"],
+             "ES": []}
 
 
 def n_cases(tier):
@@ -47,7 +51,8 @@ def _ops_for(kind, rnd, n):
         x = rnd.random()
         if fam == "DT":
             c = rnd.choice(["runtime", "read:grid_export_limit", "read:time", "write:grid_export_limit", "sensor:vpv1",
-                            "write:shadow_scan_pv1"])
+                            "write:shadow_scan_pv1", "read:shadow_scan_pv3", "read:grid_export_hw", "read:grid_export_limit",
+                            "write:grid_export_limit"])
         elif fam == "ES":
             c = rnd.choice(["runtime", "read:eco_mode_1", "read:eco_mode_2", "read:grid_export_limit", "read:eco_mode_1_switch",
                             "write:eco_mode_2", "write:eco_mode_3_switch", "setmode", "getmode", "settings"])
@@ -55,7 +60,8 @@ def _ops_for(kind, rnd, n):
             c = rnd.choice(["runtime", "read:eco_mode_1", "read:eco_mode_2", "read:eco_mode_1", "read:peak_shaving_mode",
                             "read:grid_export_limit", "read:eco_mode_3_switch", "read:time", "write:eco_mode_2",
                             "write:eco_mode_4_switch", "write:grid_export_limit", "write:power_factor", "setmode", "setmode",
-                            "getmode", "sensor:vpv1", "sensor:ppv"])
+                            "getmode", "sensor:vpv1", "sensor:ppv", "read:bms2_version", "read:bms2_bat_soc",
+                            "read:battery_capacity", "read:dred", "read:fast_charging", "devgarbage", "devnotset", "excnext"])
         op = {"c": c}
         if c == "setmode":
             op["mode"] = rnd.choice([0, 1, 2, 3, 98, 99, 98, 99])
@@ -65,6 +71,15 @@ def _ops_for(kind, rnd, n):
             op["v"] = rnd.randint(0, 100)
             op["on"] = rnd.random() < 0.5
         ops.append(op)
+    if fam in ("ET", "ES") and rnd.random() < 0.2:
+        # motif: the caller holds a value read from a group in an unusual state, then the preparatory read of an
+        # emulated-mode switch fails softly (peer busy / group undecodable / refused)
+        motif = [{"c": rnd.choice(["devnotset", "devnotset", "devgarbage"])}, {"c": "read:eco_mode_1"},
+                 {"c": rnd.choice(["excnext", "devgarbage", "excnext"])},
+                 {"c": "setmode", "mode": rnd.choice([98, 99]), "p": rnd.randint(1, 100), "s": rnd.randint(0, 100)},
+                 {"c": "read:eco_mode_1"}]
+        at = rnd.randint(0, len(ops))
+        ops[at:at] = motif
     return ops
 
 
@@ -74,10 +89,17 @@ def make_case(tier, seed, index):
     if index % 3 == 0:
         ka, kb = rnd.choice(["ET745", "ET205"]), rnd.choice(["ET205", "ET745", "ESv2"])
     offs = [0.0, 0.0, 0.001, 0.0005, 0.002, 0.01]
-    return {"a": {"kind": ka, "seed": rnd.randrange(1 << 16), "garbage_eco": rnd.random() < 0.4, "start": rnd.choice(offs),
-                  "lat": rnd.choice([0.001, 0.0005, 0.003]), "ops": _ops_for(ka, rnd, rnd.randint(2, 7))},
-            "b": {"kind": kb, "seed": rnd.randrange(1 << 16), "garbage_eco": rnd.random() < 0.4, "start": rnd.choice(offs),
-                  "lat": rnd.choice([0.001, 0.0007, 0.002]), "ops": _ops_for(kb, rnd, rnd.randint(2, 7))}}
+    def side(k, lats):
+        fam = k[:2]
+        return {"kind": k, "seed": rnd.randrange(1 << 16), "garbage_eco": rnd.random() < 0.4, "start": rnd.choice(offs),
+                "lat": rnd.choice(lats), "ops": _ops_for(k, rnd, rnd.randint(2, 7)),
+                "comm_addr": rnd.choice([0, 0, 0x25, 0x7E]),
+                "refuse": [x for x in REFUSABLE[fam] if rnd.random() < 0.35]}
+    if index % 5 == 1:
+        ka = kb = rnd.choice(["DT", "DT1", "DTtcp", "ET205", "ET205tcp"])
+        if rnd.random() < 0.5:
+            kb = {"DT": "DT1", "DT1": "DTtcp", "DTtcp": "DT", "ET205": "ET205tcp", "ET205tcp": "ET205"}[ka]
+    return {"a": side(ka, [0.001, 0.0005, 0.003]), "b": side(kb, [0.001, 0.0007, 0.002])}
 
 
 def simplify(case):
@@ -105,17 +127,31 @@ def snap(v):
     return repr(v)
 
 
+def _apply_common(dev, inv, spec):
+    """Peer answers only its own comm address; some settings are refused with ILLEGAL DATA ADDRESS."""
+    ca = spec.get("comm_addr") or 0
+    if ca:
+        dev.comm_addr = ca
+    smap = {}
+    for attr in dir(type(inv)):
+        pass
+    return dev
+
+
 def _build(goodwe, spec, host):
     kind = spec["kind"]
     tr = "tcp" if kind.endswith("tcp") else "udp"
     seed = spec["seed"]
+    ca = spec.get("comm_addr") or 0
     if kind.startswith("ET"):
         caps = ("battery",) if kind == "ETv1" else ("battery", "eco_v2", "peak_shaving")
         serial = "9010KETT000W0001" if kind == "ET745" else "9010KETU000W0001"
         dev = devices.make_et(serial=serial, caps=caps, seed=seed, fill="hash", comm_addr=None, restrict=False)
         if kind == "ETv1":
             dev.valid = devices.et_valid_ranges(caps)
-        inv = goodwe.ET(host, C.port_of(tr), 0, 1, 1)
+        inv = goodwe.ET(host, C.port_of(tr), ca, 1, 1)
+        if ca:
+            dev.comm_addr = ca
         bases = [47515, 47519, 47523, 47527] if kind == "ETv1" else [47547, 47553, 47559, 47565]
         glen = 8 if kind == "ETv1" else 12
         setb = dev.set_bytes
@@ -123,17 +159,23 @@ def _build(goodwe, spec, host):
         dev.set_reg(47000, 3)
         if glen == 12:
             dev.set_bytes(47589, bytes.fromhex("0000173bfc7f006400640000"))
-    elif kind == "DT":
-        dev = devices.make_dt(seed=seed, fill="hash", comm_addr=None, restrict=False)
-        inv = goodwe.DT(host, C.port_of(tr), 0, 1, 1)
+    elif kind.startswith("DT"):
+        serial = "93000DSN000W0001" if kind == "DT1" else "9010KDTU000W0001"
+        dev = devices.make_dt(serial=serial, seed=seed, fill="hash", comm_addr=None, restrict=False)
+        inv = goodwe.DT(host, C.port_of(tr), ca, 1, 1)
+        if ca:
+            dev.comm_addr = ca
         dev.set_bytes(40313, bytes([23, 5, 17, 10, 11, 12]))
-        return dev, inv, tr
+        _refuse(dev, inv, spec)
+        return dev, inv, tr, None
     else:
         v2 = kind == "ESv2"
         dev = devices.make_es(seed=seed, fill="hash", firmware="2525E" if v2 else "14147", eco_v2_modbus=v2)
         dev.comm_addr = None
         dev.settings_block[66:68] = b"\x00\x03"
-        inv = goodwe.ES(host, C.port_of(tr), 0, 1, 1)
+        inv = goodwe.ES(host, C.port_of(tr), ca, 1, 1)
+        if ca:
+            dev.comm_addr = ca
         bases = [47547, 47553, 47559, 47565] if v2 else [1793, 1797, 1801, 1805]
         glen = 12 if v2 else 8
         setb = dev.set_bytes if v2 else dev.set_aa55_bytes
@@ -151,7 +193,22 @@ def _build(goodwe, spec, host):
         if spec["garbage_eco"] and i == 0:
             g = bytes([99, 99]) + g[2:]     # undecodable start time: decoding stops before the type is detected
         setb(b, g)
-    return dev, inv, tr
+    _refuse(dev, inv, spec)
+    return dev, inv, tr, (setb, bases[0], glen)
+
+
+def _refuse(dev, inv, spec):
+    """Registers of the listed settings answer ILLEGAL DATA ADDRESS on THIS peer only."""
+    table = {}
+    for name in dir(type(inv)):
+        if name.endswith("__all_settings") or "__settings_" in name:
+            for st in getattr(type(inv), name):
+                table.setdefault(st.id_, st)
+    for sid in spec.get("refuse", ()):
+        st = table.get(sid)
+        if st is not None:
+            n = max(1, (st.size_ + 1) // 2)
+            dev.exc_map.append((st.offset, st.offset + n - 1, 2))
 
 
 def _value_for(op, inv, sid):
@@ -178,15 +235,21 @@ def execute(arg):
     sides = {}
     for side in ("a", "b"):
         if side in which:
-            dev, inv, tr = _build(goodwe, case[side], hosts[side])
+            dev, inv, tr, eco = _build(goodwe, case[side], hosts[side])
             world.net.add_device(hosts[side], C.port_of(tr), dev)
-            sides[side] = {"dev": dev, "inv": inv, "tr": tr, "results": [], "values": []}
+            sides[side] = {"dev": dev, "inv": inv, "tr": tr, "results": [], "values": [], "eco": eco}
     lat = {hosts[s]: case[s]["lat"] for s in sides}
     # per-peer latency: patch the default answer delay by destination
     orig_send = world.net.client_send
 
+    exc_next = {}
+
     def client_send(trp, data):
-        world.net.default_fault = {"k": "ok", "d": lat.get(trp.remote[0], 0.001)}
+        host = trp.remote[0]
+        if exc_next.pop(host, None):
+            world.net.default_fault = {"k": "exc", "code": 6, "d": lat.get(host, 0.001)}
+        else:
+            world.net.default_fault = {"k": "ok", "d": lat.get(host, 0.001)}
         return orig_send(trp, data)
 
     world.net.client_send = client_send
@@ -215,6 +278,18 @@ def execute(arg):
                     v = await inv.set_operation_mode(gw.OperationMode(op["mode"]), op["p"], op["s"])
                 elif c == "getmode":
                     v = await inv.get_operation_mode()
+                elif c in ("devgarbage", "devnotset"):
+                    # the PEER's eco group 1 changes (another actor): undecodable / the factory 'not set' marker
+                    if st["eco"] is not None:
+                        setb, base, glen = st["eco"]
+                        if c == "devgarbage":
+                            setb(base, bytes([99, 99] + [1] * (glen - 2)))
+                        elif glen == 12:
+                            setb(base, bytes([0xFF, 0xFF, 0xFF, 0xFF, 85, 0, 0, 20, 0, 50, 0, 0]))
+                    v = None
+                elif c == "excnext":
+                    exc_next[hosts[side]] = True    # the next request of this object is answered SLAVE DEVICE BUSY
+                    v = None
                 else:
                     raise AssertionError(c)
                 st["results"].append(("ok", snap(v)))
